@@ -147,6 +147,10 @@ func pLen(b *pt) int {
 		return b.k
 	case "sm3":
 		return 32
+	case "param":
+		if b.s == "zBytes" {
+			return 128 // the parameter block a || b || Gx || Gy of internal.GetZBytes (decided by C13 PARAMETER-BLOCK)
+		}
 	case "minbe":
 		if isFullWidth(b.args[0], 32) {
 			return 32
